@@ -175,7 +175,7 @@ def run_property(pid, tier, seed, jobs=None):
     results = list(bind_errors)
     if work or extras:
         results += _run_tasks([('contract', w) for w in work] + [('extra', e) for e in extras], nproc,
-                              deadline=300 if tier == "quick" else 1800)
+                              deadline=420 if tier == "quick" else 1800)
     return finish(pid, pmod, tier, seed, results, time.time() - t0)
 
 
